@@ -1036,43 +1036,66 @@ func TestVerifC34(t *testing.T) {
 		return
 	}
 
-	dB0, dBx := r.Pick(4, 5), r.Pick(3, 5)
 	bases := []c34Base{
-		{"B0-initial", nil, dB0},
-		{"B1-after-terms-with-votes", []string{"U.setStake(3)", "U.setDelegation(p0:1)", "U.setBond(p0:1)", "goToTermEnd", "goToTermEnd", "goToTermEnd"}, dBx},
-		{"B2-pending-unstakes", []string{"U.setStake(3)", "go(1)", "U.setStake(2)", "goToTermEnd", "U.setStake(1)", "V.setStake(2)", "V.setStake(0)"}, dBx},
-		{"B3-slashed-bonder", []string{"U.setStake(3)", "U.setBond(p0:1)", "U.setDelegation(p0:1,p1:1)", "gov.disqualifyPRep(p0)"}, dBx},
-		{"B4-slashed-bonder-with-pending-unbond", []string{"U.setStake(3)", "U.setBond(p0:1)", "U.setBond()", "gov.disqualifyPRep(p0)"}, dBx},
+		{"B0-initial", nil, 0},
+		{"B1-after-terms-with-votes", []string{"U.setStake(3)", "U.setDelegation(p0:1)", "U.setBond(p0:1)", "goToTermEnd", "goToTermEnd", "goToTermEnd"}, 0},
+		{"B2-pending-unstakes", []string{"U.setStake(3)", "go(1)", "U.setStake(2)", "goToTermEnd", "U.setStake(1)", "V.setStake(2)", "V.setStake(0)"}, 0},
+		{"B3-slashed-bonder", []string{"U.setStake(3)", "U.setBond(p0:1)", "U.setDelegation(p0:1,p1:1)", "gov.disqualifyPRep(p0)"}, 0},
+		{"B4-slashed-bonder-with-pending-unbond", []string{"U.setStake(3)", "U.setBond(p0:1)", "U.setBond()", "gov.disqualifyPRep(p0)"}, 0},
+	}
+	// schedule: (base index, depth to reach). Thorough first repeats the quick bounds for every
+	// base and then deepens, so that a time-capped run still covers every base.
+	type step struct{ base, depth int }
+	sched := []step{{0, 4}, {1, 3}, {2, 3}, {3, 3}, {4, 3}}
+	if r.Thorough() {
+		sched = append(sched, step{1, 4}, step{2, 4}, step{3, 4}, step{4, 4}, step{0, 5}, step{1, 5}, step{2, 5}, step{3, 5}, step{4, 5})
+	}
+	target := make([]int, len(bases))
+	for _, s := range sched {
+		if s.depth > target[s.base] {
+			target[s.base] = s.depth
+		}
+	}
+
+	type item struct{ hist []int }
+	type search struct {
+		prefix         []int
+		frontier       []item
+		seen           map[string]struct{}
+		states, trans  int
+		completedDepth int
+		first          bool
+	}
+	searches := make([]*search, len(bases))
+	for i, b := range bases {
+		prefix, err := ex.opsOf(b.prefix)
+		if err != nil {
+			r.Sanity(false, "%v", err)
+			r.Finish(false)
+			return
+		}
+		searches[i] = &search{prefix: prefix, frontier: []item{{nil}}, seen: map[string]struct{}{}, first: true}
 	}
 
 	var st c34Stats
 	var stMu sync.Mutex
 	complete := true
-	totalStates, totalTrans := 0, 0
 	seenAll := map[string]struct{}{}
 	levelInfo := map[string]interface{}{}
 	var samples []c34Case
 	stopAll := false
-	for _, b := range bases {
+	for _, sp := range sched {
 		if stopAll {
-			complete = false
 			break
 		}
-		prefix, err := ex.opsOf(b.prefix)
-		if err != nil {
-			r.Sanity(false, "%v", err)
-			break
-		}
-		type item struct{ hist []int }
-		frontier := []item{{nil}}
-		seen := map[string]struct{}{}
-		states, trans := 0, 0
-		completedDepth := 0
-		first := true
-		for depth := 1; depth <= b.depth && len(frontier) > 0; depth++ {
+		b := bases[sp.base]
+		sr := searches[sp.base]
+		for depth := sr.completedDepth + 1; depth <= sp.depth && len(sr.frontier) > 0; depth++ {
+			frontier := sr.frontier
 			results := make([][]c34Child, len(frontier))
 			rviol := make([][]c34Viol, len(frontier))
 			var stop int32
+			first := sr.first
 			ev.Par(len(frontier), workers, func(i int) {
 				if atomic.LoadInt32(&stop) != 0 {
 					return
@@ -1084,7 +1107,7 @@ func TestVerifC34(t *testing.T) {
 				w := <-ex.pool
 				defer func() { ex.pool <- w }()
 				var ls c34Stats
-				full := append(append([]int(nil), prefix...), frontier[i].hist...)
+				full := append(append([]int(nil), sr.prefix...), frontier[i].hist...)
 				ch, rv, herr := ex.expand(w, full, first, &ls)
 				if herr != nil {
 					r.Sanity(false, "%s %v: %v", b.name, ex.names(full), herr)
@@ -1105,6 +1128,20 @@ func TestVerifC34(t *testing.T) {
 				st.unbondExpired += ls.unbondExpired
 				stMu.Unlock()
 			})
+			if atomic.LoadInt32(&stop) != 0 {
+				// a partially expanded level is discarded (its violations, if any, are still reported)
+				for i := range frontier {
+					for _, c := range results[i] {
+						nh := append(append([]int(nil), frontier[i].hist...), c.op)
+						for _, v := range c.viol {
+							r.Violation(v.sig, v.detail+" | "+b.name+" + "+strings.Join(ex.names(nh), ", "), &c34Case{Base: b.name, Prefix: b.prefix, History: ex.names(nh)})
+						}
+					}
+				}
+				complete = false
+				stopAll = true
+				break
+			}
 			// merge in frontier order: deterministic
 			var next []item
 			for i := range frontier {
@@ -1112,7 +1149,7 @@ func TestVerifC34(t *testing.T) {
 					r.Violation(v.sig, v.detail+" | while building base "+b.name, &c34Case{Base: b.name, Prefix: nil, History: b.prefix})
 				}
 				for _, c := range results[i] {
-					trans++
+					sr.trans++
 					r.Eval(1)
 					nh := append(append([]int(nil), frontier[i].hist...), c.op)
 					for _, v := range c.viol {
@@ -1121,33 +1158,34 @@ func TestVerifC34(t *testing.T) {
 					if len(c.viol) > 0 {
 						continue
 					}
-					if _, dup := seen[c.key]; dup {
+					if _, dup := sr.seen[c.key]; dup {
 						continue
 					}
-					seen[c.key] = struct{}{}
+					sr.seen[c.key] = struct{}{}
 					seenAll[c.key] = struct{}{}
 					r.Nontrivial(c.key)
-					states++
+					sr.states++
 					next = append(next, item{nh})
 				}
 			}
-			first = false
-			if atomic.LoadInt32(&stop) != 0 {
-				complete = false
-				stopAll = true
-				levelInfo[b.name] = fmt.Sprintf("depth %d of %d complete (%d states, %d transitions incl. partial level)", completedDepth, b.depth, states, trans)
-				break
-			}
-			completedDepth = depth
-			frontier = next
-			levelInfo[b.name] = fmt.Sprintf("depth %d of %d complete (%d states, %d transitions)", completedDepth, b.depth, states, trans)
-			if len(next) > 0 && len(samples) < 4 {
+			sr.first = false
+			sr.completedDepth = depth
+			sr.frontier = next
+			if len(next) > 0 && len(samples) < 5 && depth == sp.depth {
 				samples = append(samples, c34Case{Base: b.name, Prefix: b.prefix, History: ex.names(next[len(next)/2].hist)})
 			}
 		}
-		totalStates += states + 1
-		totalTrans += trans
-		r.Set("depth_completed_"+b.name, completedDepth)
+	}
+	totalStates, totalTrans := 0, 0
+	for i, b := range bases {
+		sr := searches[i]
+		totalStates += sr.states + 1
+		totalTrans += sr.trans
+		if sr.completedDepth < target[i] && len(sr.frontier) > 0 {
+			complete = false
+		}
+		levelInfo[b.name] = fmt.Sprintf("depth %d of %d complete (%d states, %d transitions)", sr.completedDepth, target[i], sr.states, sr.trans)
+		r.Set("depth_completed_"+b.name, sr.completedDepth)
 	}
 	r.States(totalStates)
 	r.Transitions(totalTrans)
